@@ -26,7 +26,11 @@ def gen_edges(ctx, keys, vals):
     hs = parse_hist(ctx, res)
     if not hs:
         raise Inconclusive("TLC generated no edge histories")
-    return res, [{"mode": "edge", "ops": h} for h in hs]
+    # the edges of one model state share the call path that reaches it: one Reset, then the fan of calls
+    fans = {}
+    for h in hs:
+        fans.setdefault(json.dumps(h[:-1]), []).append(h[-1])
+    return res, len(hs), [{"mode": "fan", "prefix": json.loads(p), "ops": ops} for p, ops in fans.items()]
 
 
 def gen_deep(ctx, keys, vals, num, depth):
@@ -37,7 +41,7 @@ def gen_deep(ctx, keys, vals, num, depth):
     hs = parse_hist(ctx, res)
     if len(hs) != num:
         raise Inconclusive("TLC generated %d of %d deep histories" % (len(hs), num))
-    return res, [{"mode": "full", "ops": h} for h in hs]
+    return res, [{"mode": "full", "prefix": [], "ops": h} for h in hs]
 
 
 def run(ctx):
@@ -51,23 +55,26 @@ def run(ctx):
     # 2. TLC-generated histories (model -> code)
     runs = []
     if quick:
-        universes = [([1, 2, 3, 4, 6], [1, 7]), ([6, 7, 8], [4, 6])]
-        deep = [([1, 2, 3, 4, 5, 6, 7, 8], [1, 2, 3, 4, 5, 6, 7, 8], 150, 30)]
+        universes = [([2, 3, 4, 6], [1, 7]), ([2, 3, 4, 5, 6], [1]), ([1, 5, 7, 8], [4, 6])]
+        deep = [([1, 2, 3, 4, 5, 6, 7, 8], [1, 2, 3, 4, 5, 6, 7, 8], 150, 30), ([2, 3, 4, 5, 6], [1, 2], 150, 30)]
     else:
-        universes = [([1, 2, 3, 4, 5, 6], [1, 7]), ([1, 2, 3, 4, 6], [2, 3, 4]), ([2, 3, 6, 7, 8], [5, 8])]
+        universes = [([1, 2, 3, 4, 6], [1, 7]), ([2, 3, 4, 6], [2, 3, 4]), ([2, 3, 6, 7, 8], [5, 8]), ([2, 3, 4, 5, 6], [1, 2]),
+                     ([1, 5, 7, 8], [4, 6])]
         deep = [([1, 2, 3, 4, 5, 6, 7, 8], [1, 2, 3, 4, 5, 6, 7, 8], 3000, 40),
-                ([2, 3, 4, 5], [3, 4, 5, 6], 1500, 40)]
+                ([2, 3, 4, 5], [3, 4, 5, 6], 1500, 40), ([2, 3, 4, 5, 6], [1, 2], 1500, 40)]
     hists, gens = [], []
+    n_edges = 0
     for keys, vals in universes:
-        res, hs = gen_edges(ctx, keys, vals)
+        res, ne, hs = gen_edges(ctx, keys, vals)
         gens.append(res)
         hists += hs
-    n_edges = len(hists)
+        n_edges += ne
+    n_states = len(hists)
     for keys, vals, num, depth in deep:
         res, hs = gen_deep(ctx, keys, vals, num, depth)
         gens.append(res)
         hists += hs
-    n_deep = len(hists) - n_edges
+    n_deep = len(hists) - n_states
     log("histories: %d model edges, %d simulated" % (n_edges, n_deep))
     drv = ctx.build("c02")
     shards = shard(hists, 8 if quick else 64)
@@ -104,7 +111,8 @@ def run(ctx):
     coverage = {
         "states": base["distinct"] + sum(g["distinct"] for g in gens),
         "transitions": base["generated"] + sum(g["generated"] for g in gens),
-        "traces_validated_against_impl": len(hists),
+        "traces_validated_against_impl": n_edges + n_deep,
+        "model_states_replayed": n_states,
         "events_validated": total,
         "events_by_call": kinds,
         "real_calls": calls,
@@ -115,7 +123,7 @@ def run(ctx):
         "exhaustive": True,
         "explanation": "Mpt.tla (Canon = Yellow-Paper trie; insert/delete/lookup of trie.go transcribed, any stored sub-tree "
                        "possibly present only as a hash reference) model-checked exhaustively; every (model state, call) edge over "
-                       "the listed key/value universes and seeded TLC simulations replayed on the real trie.Trie; after every call "
+                       "the listed key/value universes (model state = content x which sub-trees are hash references x cache limit x provenance of the resolved nodes: built / clean / reloaded from the NodeDatabase memory layer / reloaded from disk) and seeded TLC simulations replayed on the real trie.Trie; after every call "
                        "the full projection of a clone (TryGet of all 8 keys, Iterator pairs, NodeIterator nodes, in-memory graph, "
                        "stored graph decoded with own RLP, Hash, Commit, own-keccak digest of the stored graph, root of a fresh "
                        "sorted-insert trie) judged by MptTrace.tla against Canon(content).",
